@@ -15,6 +15,7 @@ import (
 // of them, or makes two live symbols share a name, the probe trace changes.
 
 type ScopeGen struct {
+	Strict bool // module code: no `with`, globals defined through globalThis
 	r      *Rand
 	n      int
 	Stats  map[string]int
@@ -48,6 +49,7 @@ type scopeEnv struct {
 	depth   int
 	noEval  bool
 	strict  bool // inside a class body: no `with`
+	fnBody  bool     // this block is the body of a function (not a nested block)
 	fnNames []string // function declarations of enclosing blocks of the same function: V8 and the specification
 	// disagree on whether a same-named function in a nested block is still hoisted (Annex B.3.3.1 says no)
 	catches []string // catch parameters of the enclosing function (see known finding c15-block-function-named-like-catch-parameter)
@@ -97,6 +99,10 @@ func (g *ScopeGen) block(e scopeEnv, ind string, taken ...string) string {
 			plannedSet[n] = true
 		}
 	}
+	isBody := e.fnBody
+	// Strict code next to a direct eval: esbuild leaves function declarations in nested blocks as they are
+	// (documented "give up"), and the output formats cjs/iife are sloppy, where such a declaration is hoisted.
+	noBlockFn := g.Strict && !e.noEval && !isBody
 	env := e.with()
 	{
 		vis := []string{}
@@ -144,6 +150,9 @@ func (g *ScopeGen) block(e scopeEnv, ind string, taken ...string) string {
 			g.stat("scope:block")
 			sb.WriteString(ind + "{\n" + g.block(env, ind+"  ") + ind + "}\n")
 		case 6, 7:
+			if noBlockFn {
+				continue
+			}
 			g.stat("scope:function")
 			fn := g.name()
 			if declared[fn] || plannedSet[fn] {
@@ -171,6 +180,7 @@ func (g *ScopeGen) block(e scopeEnv, ind string, taken ...string) string {
 			}
 			inner := env.with(fn, p1, p2)
 			inner.inFn = true
+			inner.fnBody = true
 			inner.labels = nil
 			inner.catches = nil
 			inner.fnNames = nil
@@ -190,6 +200,7 @@ func (g *ScopeGen) block(e scopeEnv, ind string, taken ...string) string {
 			self := g.name()
 			inner := env.with(self)
 			inner.inFn = true
+			inner.fnBody = true
 			inner.labels = nil
 			fmt.Fprintf(&sb, "%s(function %s() {\n%s  p(\"self%d\", typeof %s);\n%s%s})();\n", ind, self, ind, g.id(), self, g.block(inner, ind+"  "), ind)
 		case 9:
@@ -197,6 +208,7 @@ func (g *ScopeGen) block(e scopeEnv, ind string, taken ...string) string {
 			p1 := g.name()
 			inner := env.with(p1)
 			inner.inFn = true
+			inner.fnBody = true
 			inner.labels = nil
 			fmt.Fprintf(&sb, "%s((%s) => {\n%s%s})(\"arrow%d\");\n", ind, p1, g.block(inner, ind+"  ", p1), ind, g.id())
 		case 10:
@@ -219,6 +231,7 @@ func (g *ScopeGen) block(e scopeEnv, ind string, taken ...string) string {
 			priv := pick(g.r, "x", "alpha", "a", "value")
 			inner := env.with(cn)
 			inner.inFn = true
+			inner.fnBody = true
 			inner.labels = nil
 			inner.strict = true
 			fmt.Fprintf(&sb, "%sclass %s {\n%s  #%s = \"priv@%d\";\n%s  static #%ss = 1;\n%s  read() {\n%s%s    return this.#%s;\n%s  }\n%s}\n", ind, cn, ind, priv, g.id(), ind, priv, ind, g.block(inner, ind+"    "), ind, priv, ind, ind)
@@ -251,13 +264,16 @@ func (g *ScopeGen) block(e scopeEnv, ind string, taken ...string) string {
 				fmt.Fprintf(&sb, "%sp(\"eval%d\", eval(\"typeof %s\"), eval(%q));\n", ind, g.id(), n, n)
 			}
 		case 15:
-			if !e.inFn || e.strict {
+			if !e.inFn || e.strict || g.Strict {
 				continue
 			}
 			g.stat("scope:with")
 			n := g.name()
 			fmt.Fprintf(&sb, "%swith ({ %s: \"with@%d\" }) {\n%s  p(\"with%d\", %s, %s);\n%s}\n", ind, n, g.id(), ind, g.id(), n, g.free(), ind)
 		case 16:
+			if g.Strict && !e.noEval {
+				continue
+			}
 			g.stat("scope:function-in-block")
 			fn := g.name() + "Fn"
 			fmt.Fprintf(&sb, "%sif (true) {\n%s  function %s() { return \"%s@%d\"; }\n%s  p(\"fib%d\", %s());\n%s}\n", ind, ind, fn, fn, g.id(), ind, g.id(), fn, ind)
@@ -285,11 +301,44 @@ func (g *ScopeGen) block(e scopeEnv, ind string, taken ...string) string {
 			}
 			inner := env.with(p1, p2)
 			inner.inFn = true
+			inner.fnBody = true
 			inner.labels = nil
 			fmt.Fprintf(&sb, "%s(function ({ k: %s }, [%s] = [%s]) {\n%s%s})({ k: \"dk%d\" });\n", ind, p1, p2, g.free(), g.block(inner, ind+"  ", p1, p2), ind, g.id())
 		}
 	}
 	return sb.String()
+}
+
+// Module: the same kind of program as strict module code, for bundling: main.js plus a lib.js that declares the
+// same top-level names (the bundler has to keep the two files' symbols apart) and is imported by main.js.
+func (g *ScopeGen) Module() map[string]string {
+	g.Strict = true
+	var sb strings.Builder
+	sb.WriteString("import { libValue, libRead } from \"./lib.js\";\n")
+	for _, n := range freeGlobals {
+		fmt.Fprintf(&sb, "globalThis[%q] = \"G:%s\";\n", n, n)
+	}
+	// every global is also READ as a bare identifier somewhere, which is what reserves its name
+	sb.WriteString("p(\"globals\", typeof " + strings.Join(freeGlobals, ", typeof ") + ");\n")
+	nTop := 1 + g.r.Intn(3)
+	for i := 0; i < nTop; i++ {
+		env := scopeEnv{inFn: true, noEval: g.r.Chance(1, 3), fnBody: true}
+		fmt.Fprintf(&sb, "(function top%d() {\n%s})();\n", i, g.block(env, "  "))
+	}
+	env := scopeEnv{noEval: true, fnBody: true}
+	sb.WriteString(g.block(env, ""))
+	sb.WriteString("p(\"lib\", libValue, libRead());\n")
+	var lb strings.Builder
+	for i, n := range scopeNames {
+		kind := []string{"let", "const", "var"}[i%3]
+		fmt.Fprintf(&lb, "%s %s = \"lib:%s\";\n", kind, n, n)
+	}
+	// direct eval may only count on the locals of the function it sits in: top-level names of a bundled ES
+	// module are renamed even then (documented). The locals deliberately carry names that are also top-level
+	// names of both files.
+	lb.WriteString("function secret() { let alpha = \"lib:local-alpha\"; const item = \"lib:local-item\"; return eval(\"alpha + item\"); }\n")
+	lb.WriteString("export const libValue = [" + strings.Join(scopeNames, ", ") + "].join();\nexport function libRead() { return secret() + gamma; }\n")
+	return map[string]string{"main.js": sb.String(), "lib.js": lb.String(), "package.json": "{\"type\": \"module\"}\n"}
 }
 
 // Program: a sloppy script; everything lives inside one function so that direct eval / with can be used and
